@@ -35,6 +35,7 @@ def main():
         L = [tuple(x) for x in universe[:n]]
         other = [tuple(x) for x in universe[n:n + 3]]
         selected = {x: 0 for x in L}
+        selected_other = {}
         # the contract holds for every counter state: half of the histories start from an arbitrary one
         arbitrary = hist % 2 == 1
         if arbitrary:
@@ -68,6 +69,12 @@ def main():
             if not use_other:
                 for x in res:
                     selected[x] += 1
+            else:
+                for x in res:
+                    selected_other[x] = selected_other.get(x, 0) + 1
+            # candidates that appear later than others still start from zero: reported count == number of selections
+            if not arbitrary and any(CR.GLOBAL_PRIOR_COMB_COUNTS[x] != selected_other.get(x, 0) for x in other if x in CR.GLOBAL_PRIOR_COMB_COUNTS):
+                h.fail('history.count_is_selection', wit, f'late candidates: {{x: CR.GLOBAL_PRIOR_COMB_COUNTS[x] for x in other}} vs selections {selected_other}'.replace('{{', '{').replace('}}', '}'))
             # history-level statement: counts of a stable duplicate-free list differ by at most one,
             # exactly min(cap, n) distinct candidates per batch, reported counts == number of selections
             cnts = [CR.GLOBAL_PRIOR_COMB_COUNTS[x] for x in L]
